@@ -7,7 +7,8 @@ from ..buscheck import fld, hexname, Tracker
 MODULE = "Dbus.Props.C13"
 THEOREMS = ["limits_never_exceeded", "limits_constant", "names_limit_refuses", "names_limit_error", "rules_limit_refuses",
             "connections_limit_refuses", "per_user_limit_refuses", "replies_limit_refuses", "below_names_limit_proceeds",
-            "below_replies_limit_records", "oversized_only_sender_dropped", "limits_never_exceeded_with_activation_and_time"]
+            "below_replies_limit_records", "oversized_only_sender_dropped", "limits_never_exceeded_with_activation_and_time",
+            "removed_rule_frees_room", "below_rules_limit_not_refused", "answered_call_frees_slot", "departure_frees_connection"]
 BUS = "org.freedesktop.DBus"
 ERR = "org.freedesktop.DBus.Error."
 ANYUSER = busdiff.Policy(busdiff.SESSION.rules + [("default", True, {"user": "*"})])
